@@ -14,6 +14,7 @@ Signatures (stable; known_findings.json matches on them):
   cc:<ctrl>:cwnd-overflow          a panic whose message is an arithmetic overflow (the harness is a debug build: a
                                    wrapping `+=` on the window panics instead of wrapping; a window that SATURATES at
                                    u32::MAX — CUBIC's `f32 as u32` — is not an overflow)
+  cc:<ctrl>:bif-overflow           an arithmetic-overflow panic on a send although sent - acked - lost - discarded <= u32::MAX
   cc:<ctrl>:bif-mismatch           bytes_in_flight != sum(sent) - sum(acked) - sum(lost) - sum(discarded)
   cc:<ctrl>:limited-flag           is_congestion_limited() != (cwnd - bif < mds)
   cc:<ctrl>:fast-rtx-after-send    requires_fast_retransmission() still set after a congestion-controlled send
@@ -362,7 +363,9 @@ def oracle(ops, outs):
             st["contract"] = False          # the caller contract is broken (shrunk / hand-written input): nothing to check
         if out.startswith("panic"):
             if st["contract"]:
-                if "overflow" in out:
+                if "overflow" in out and t[0] == "sent":
+                    bad.append((i, f"cc:{ctrl}:bif-overflow", f"{op}: the in-flight counter overflowed although sent-acked-lost-discarded <= u32::MAX: {out}"))
+                elif "overflow" in out:
                     bad.append((i, f"cc:{ctrl}:cwnd-overflow", f"{op}: arithmetic overflow in the controller: {out}"))
                 elif "minimum_window" in out:
                     bad.append((i, f"cc:{ctrl}:cwnd-below-min", f"{op}: debug assertion on the minimum window fired: {out}"))
